@@ -172,6 +172,26 @@ def run(check):
                 idx += 1
                 items.append((c2, s2, g))
 
+        # the same with a step whose shutdown takes longer than any grace period the engine has (an uninterruptible deployment of
+        # 5.6 s - and 10.6 s for a cancelled run - still in flight when the result is ready): the run returns once it is over
+        for j, (ms, cancel) in enumerate([(5600, False), (5600, False), (10600, True)][:check.pick(2, 3)]):
+            rng = random.Random(derive_seed(check.seed, "c05-longshutdown", j))
+            side = gen.plugin_step("side", Expr(In("tag")))
+            steps = [gen.plugin_step("a", Expr(In("tag"))), side]
+            if j == 1:
+                steps.append(Step("loop", "foreach", sub=gen.sub_program("sub.yaml", 1), items=Expr(In("items"))))
+            prog = Program(steps, {"success": {"a": gen.tagref("a")}}, gen.BASE_INPUT)
+            scripts = gen.make_scripts(steps, {})
+            scripts["side"]["deploys"] = [{}, {"delay_ms": ms}]
+            if cancel:
+                scripts["a"]["exec"] = {"outcome": "hang", "on_cancel": "error"}
+            g = {"program": prog, "scripts": scripts, "input": cancelfam.base_input(rng), "shape": "unneeded-step-with-%d-ms-deployment%s" % (ms, "/cancelled" if cancel else ""), "fault": ("long-shutdown", ms, cancel)}
+            opts = {"triggers": [{"kind": "exec-start", "src": "a", "nth": 1, "action": "cancel:0"}]} if cancel else {}
+            if cancel:
+                g["cancel"] = ("exec-start", "a", 1)
+            c2, s2 = runfam.build_case("c05-%05d" % idx, g, **opts)
+            idx += 1
+            items.append((c2, s2, g))
         out = rn.run_cases([c for c, _s, _g in items], per_case_timeout=90)
     by_id = {c["id"]: (c, s, g) for c, s, g in items}
     for cid in sorted(out):
